@@ -16,6 +16,7 @@ mod r#gen;
 mod proto;
 mod sched;
 mod sgen;
+mod stress;
 
 use proto::{Kind, Req};
 use std::collections::HashMap;
@@ -316,6 +317,15 @@ fn main() -> ExitCode {
     // Everything runs on a thread that is driven by a `futures` executor, as the synchronous, non-blocking part of the
     // API may be called from such a thread (the blocking variants only ever park on `tokio`'s own primitives).
     // The harness never starts a second executor itself: it polls futures by hand.
+    if args[1] == "stress" {
+        return match stress_cmd(&flags) {
+            Ok(()) => ExitCode::SUCCESS,
+            Err(e) => {
+                eprintln!("harness: {e}");
+                ExitCode::from(1)
+            }
+        };
+    }
     let r = futures::executor::block_on(async { run(&args, &flags) });
     let r = match r {
         Some(r) => r,
@@ -328,6 +338,28 @@ fn main() -> ExitCode {
             ExitCode::from(1)
         }
     }
+}
+
+/// `harness stress --kind K --threads T --millis M --seed S --keys N`: prints one JSON line
+fn stress_cmd(flags: &HashMap<String, String>) -> Result<(), String> {
+    let (kind_s, kind) = flag_kind(flags)?;
+    let kind = kind.ok_or("stress needs one --kind")?;
+    let threads = flag_num(flags, "threads")? as usize;
+    let millis = flag_num(flags, "millis")?;
+    let seed = flag_num(flags, "seed")?;
+    let keys = flag_num(flags, "keys")? as u32;
+    let rep = stress::run(kind, threads.max(1), millis, seed, keys.max(1), flags.get("stop-on").cloned());
+    let vio: Vec<String> = rep
+        .violations
+        .iter()
+        .map(|v| format!("\"{}\"", v.replace('\\', "/").replace('"', "'").replace('\n', " ")))
+        .collect();
+    println!(
+        "{{\"kind\": \"{kind_s}\", \"threads\": {threads}, \"millis\": {millis}, \"seed\": {seed}, \"keys\": {keys}, \"ops\": {}, \"violations\": [{}]}}",
+        rep.ops,
+        vio.join(", ")
+    );
+    Ok(())
 }
 
 fn run(args: &[String], flags: &HashMap<String, String>) -> Option<Result<(), String>> {
